@@ -588,6 +588,7 @@ class Check:
                "scenarios_with_violation_records": self.violating_total,
                "tlc_expectations_cross_checked": self.ncross,
                "validator_selftest": getattr(self, "selftest_result", []),
+               "boot_init": getattr(self, "provinit", {}),
                "known_findings_seen": dict(self.verdict.known)}
         rc = self.verdict.finish()
         if (stats["from_stored"] < 10 or stats["failed_imports"] < 5 or stats["faults_hit"] < 5) and rc == 0:
@@ -679,12 +680,18 @@ def run(tier, seed):
                      lambda cs: chain_scenarios("sim", cs, rng, "s"), False))
     chk.generate(jobs)
     chk.run_all()
+    # the boot-time path of the same import: ProvInit.tla histories on the real Service.Init
+    from checks import provinit_model
+    chk.provinit = provinit_model.run(chk, quick, seed)
     return chk.finish()
 
 
 def replay(path):
     doc = json.load(open(path))
     sc = doc["scenario"]
+    if sc.get("provinit"):
+        from checks import provinit_model
+        return provinit_model.replay(doc)
     vlib.build_harness()
     vlib.load_known = load_known_with_proposed
     want = doc["violation"]
